@@ -6,6 +6,8 @@ import (
 	"fmt"
 	"hash/fnv"
 	"math/rand"
+	"os"
+	"path/filepath"
 	"strings"
 	"sync"
 	"time"
@@ -83,6 +85,11 @@ func BuildMessage(spec MsgSpec, from, to string, seed int64) *fbb.Message {
 		subj += " æøå ÆØÅ ü"
 	}
 	m.SetSubject(subj)
+	if rng.Intn(3) == 0 {
+		// extension headers travel with the message (only the mailbox's own bookkeeping headers are private)
+		m.Header.Set("X-Location", "60.13N 10.25E (GPS)")
+		m.Header.Set("X-Priority", "4")
+	}
 	n := map[string]int{"tiny": 12, "small": 300, "medium": 6000, "large": 120000 + rng.Intn(150000)}[spec.Size]
 	if n == 0 {
 		n = 40
@@ -137,6 +144,7 @@ type Station struct {
 	askedOnce map[string]bool // "once=" policy: MIDs that were already deferred once
 	// fault: fail the n-th ProcessInbound call of a session (1-based), 0 = never
 	FailStoreAt int
+	FSFailAt    int // directory mailbox: the n-th store hits a real file-system fault
 	nStore      int
 	Batched     bool
 	NilAnswers  bool
@@ -312,10 +320,34 @@ func (s *Station) ProcessInbound(msgs ...*fbb.Message) error {
 			return errors.New("storage failure (injected)")
 		}
 		if s.Dir != nil {
-			if err := s.Dir.ProcessInbound(m); err != nil {
+			block := ""
+			if s.FSFailAt > 0 && s.nStore == s.FSFailAt {
+				// the name the message's file must get is occupied by a non-empty directory: writing it fails
+				block = filepath.Join(s.Dir.MBoxPath, "in", m.MID()+".b2f")
+				os.MkdirAll(filepath.Join(block, "occupied"), 0755)
+			}
+			err := s.Dir.ProcessInbound(m)
+			if block != "" {
+				os.RemoveAll(block)
+			}
+			if err != nil {
 				s.rec.Add(rec.Event{"op": "Store", "s": s.Name, "m": m.MID(), "intact": intact, "err": true})
 				return err
 			}
+			// success was reported: the message must be in the inbox now, complete
+			onDisk := false
+			if msgs, lerr := s.Dir.Inbox(); lerr == nil {
+				for _, dm := range msgs {
+					if dm.MID() == m.MID() {
+						for _, h := range []string{"X-FilePath", "X-Unread", "X-P2POnly"} {
+							dm.Header.Del(h)
+						}
+						db, _ := dm.Bytes()
+						onDisk = bytes.Equal(db, b)
+					}
+				}
+			}
+			intact = intact && onDisk
 		}
 		s.mu.Lock()
 		s.inbox[m.MID()]++
